@@ -41,6 +41,8 @@ def run_end_violation(run, world):
     Returns key or None;  'quiesced' on an open, silent connection is legitimate."""
     if run.end == 'exception':
         return 'exception-escaped-iterator'
+    if run.end == 'deadlock':
+        return 'would-hang:self-deadlock-on-lock'
     transport_ended = any(e[0] == 'recv' and e[5] == b'' for e in world.log) or \
         any(e[0] in ('recv_fault', 'wait_fault') for e in world.log)
     if run.end == 'budget':
